@@ -233,7 +233,7 @@ def obligations(tier: str) -> List[Obligation]:
         '?._a?._tcp.local.', '??._sub._a?._tcp.local.', '._sub._a?._tcp.local.', '._a?._tcp.local.', '_._tcp.local.',
         '?.?._a?._tcp.local.', '_a?.local.', '??.local.', '_a?._tcp.local', '_a?._tcp.loca?.', '_a?._?cp.local.',
         '_abcdefghijklmn?._tcp.local.', '_abcdefghijklmn??._tcp.local.',
-        'x' * 62 + '?._a?._tcp.local.', 'x' * 61 + '??._a?._tcp.local.',
+        'x' * 31 + '.' + 'y' * 30 + '??._a?._tcp.local.', 'x' * 62 + '?._a?._tcp.local.', 'x' * 61 + '??._a?._tcp.local.',
         'y' * 50 + '.' + 'y' * 63 + '.' + 'y' * 63 + '.' + 'y' * 61 + '?._ab._tcp.local.',
     ]
     thorough_templates = quick_templates + [
@@ -250,6 +250,8 @@ def obligations(tier: str) -> List[Obligation]:
     txt_shapes = {
         'one-bytes': [('bytes', 'k', 'bytes')],
         'one-str-none': [('str', 'k', 'none')],
+        'bytes-key-str-value': [('bytes', 'k', 'str')],
+        'bytes-key-int-value': [('bytes', 'k', 'int'), ('bytes', 'j', 'none')],
         'two-mixed': [('str', 'a', 'str'), ('bytes', 'b', 'int')],
     }
     if tier == 'thorough':
